@@ -18,7 +18,7 @@ Theorem C15_synchronous_round_commits :
   forall powers lru (correct : list (N * N)) acts leader fresh root round,
   NoDup (map fst correct) ->
   Forall (fun e => fst e < N.of_nat (length powers)) correct ->
-  2 * total powers < two64 ->
+  total powers < two64 ->
   3 * byz_power powers (map fst correct) < total powers ->
   Forall (fun e => lru <= snd e) correct ->
   run_ok powers lru (init_net correct) acts ->
@@ -37,7 +37,7 @@ Theorem C15_commits_the_highest_lock :
   forall powers lru (correct : list (N * N)) acts leader fresh root round i r l,
   NoDup (map fst correct) ->
   Forall (fun e => fst e < N.of_nat (length powers)) correct ->
-  2 * total powers < two64 ->
+  total powers < two64 ->
   3 * byz_power powers (map fst correct) < total powers ->
   Forall (fun e => lru <= snd e) correct ->
   run_ok powers lru (init_net correct) acts ->
@@ -70,7 +70,7 @@ Example C15_needs_sane_validation :
   let n := run lvP 0 (init_net lvC) cex_acts in
   run_ok lvP 0 (init_net lvC) cex_acts /\ aligned n [0; 1; 2] 5 1 /\
   (exists r, get_rep n 1 = Some r /\ r_lock r = Some cex_q) /\
-  2 * total lvP < two64 /\ 3 * byz_power lvP [0; 1; 2] < total lvP /\
+  total lvP < two64 /\ 3 * byz_power lvP [0; 1; 2] < total lvP /\
   maj23 (mkConf 0 lvP 0) <= set_power (mkConf 0 lvP 0) [0; 1; 2] /\
   commits (sync_round lvP 0 [0; 1; 2] 0 (21, 22) n) = [].
 Proof. exact sync_round_needs_nonzero_locks. Qed.
